@@ -21,7 +21,9 @@ ASSUMPTIONS = hc.COMMON_ASSUMPTIONS + [
     "outside the claim: non-UTC time arguments (C08), invalid arguments (C11/C14)",
 ]
 BOUNDS = {"points": 3}
-HARNESS = {"h_update": hc.h_update, "h_update2": hc.h_update2}
+from .c01 import h_wide  # noqa: E402
+
+HARNESS = {"h_update": hc.h_update, "h_update2": hc.h_update2, "h_wide": h_wide}
 
 UPDS = {
     "field=sym": {"fields": {"f": SYM}},
@@ -38,6 +40,8 @@ UPDS = {
     "tags_callable_merge": {"tags": ("callable", "merge", {"j": "b"})},
     "fields_callable_const": {"fields": ("callable", "const", {"f": SYM})},
     "fields_callable_merge": {"fields": ("callable", "merge", {"g": 2})},
+    "fields_callable_mutate": {"fields": ("callable", "mutate", {"f": SYM})},
+    "tags_callable_mutate": {"tags": ("callable", "mutate", {"k": "b", "j": "x"})},
     "unset_tag": {"unset_tags": "k"},
     "unset_tags_list": {"unset_tags": ["k", "zz"]},
     "unset_field": {"unset_fields": "f"},
@@ -86,6 +90,12 @@ def obligations(tier):
         for q in (C, ("not", C)):
             for cname, ai, rx in CONFIGS[:2]:
                 obs.append(_ob(f"upd-floats/{uname}/{q_repr(q)}/{cname}", q=q, upd=UPDS[uname], ai=ai, reindex=rx, alpha="sel", n=2, floats=True, torder="ooo"))
+    for uname in ("field=sym", "tag=sym", "unset_tag", "time+1s", "fields_callable_mutate"):
+        for q in (B, A):
+            obs.append(_ob(f"upd-manual-pre/{uname}/{q_repr(q)}", q=q, upd=UPDS[uname], ai=False, reindex_pre=True, alpha="sel", n=3, torder="sym" if ("time" in attrs(q) or "time" in UPDS[uname]) else "ooo"))
+    for kind in ("upd", "upd_tags"):
+        for cname, ai, rx in CONFIGS[:2] + [("manual-pre", False, False)]:
+            obs.append({"id": f"wide/{kind}/{cname}", "harness": "h_wide", "params": {"kind": kind, "ai": ai, "reindex_pre": cname == "manual-pre", "n": 10 if th else 9}, "budget_s": 120 if not th else 600, "presets": {}})
     obs.append(_ob("upd-op/tag", q=("tag", "k", OP, SYM), upd=UPDS["field=sym"], ai=True, alpha="small", n=3 if th else 2, torder="ooo", split_op=True))
     obs.append(_ob("upd-op/field", q=("field", "f", OP, SYM), upd=UPDS["tag=sym"], ai=True, alpha="sel", n=3 if th else 2, torder="ooo", split_op=True))
     obs.append(_ob("upd-op/time", q=("time", OP, SYM), upd=UPDS["time+1s"], ai=True, alpha="sel", n=3, torder="sym", split_op=True))
